@@ -3559,3 +3559,66 @@ func ruleResliceInput(prog *Program, rep *Report, rels ...string) {
 	}
 	runSynRule(prog, rep, "M-inplace", rels, matchResliceInput, fixtureResliceInput, 1, floor)
 }
+
+// ---------------------------------------------------------------- B-kindlist
+
+// ruleKindList: the evaluators decide "is this child a container worth descending into" with a
+// case list of the six container kinds (map[string]any, []any, gen.Object, gen.Array, Keyed,
+// Indexed), 111 times. A copy that lists some of them but not all silently stops descending
+// into the kinds it dropped.
+func ruleKindList(prog *Program, rep *Report, inScope func(fd *ast.FuncDecl) bool, floor int) {
+	rep.Rules = append(rep.Rules, "B-kindlist: every case clause of package jp that lists at least three of the six container kinds (map[string]any, []any, gen.Object, gen.Array, Keyed, Indexed) lists all six: no copy of the container test forgets a representation")
+	pk := prog.Pkg("jp")
+	if pk == nil {
+		rep.Errorf("B-kindlist: package jp not loaded")
+		return
+	}
+	six := map[string]bool{"map[string]any": true, "[]any": true, "gen.Object": true, "gen.Array": true, "Keyed": true, "Indexed": true}
+	n := 0
+	for _, f := range pk.Syntax {
+		if strings.HasSuffix(prog.Fset.Position(f.Pos()).Filename, "_test.go") {
+			continue
+		}
+		for _, d := range f.Decls {
+			fd, ok := d.(*ast.FuncDecl)
+			if !ok || fd.Body == nil || (inScope != nil && !inScope(fd)) {
+				continue
+			}
+			idx := 0
+			ast.Inspect(fd.Body, func(k ast.Node) bool {
+				cc, ok := k.(*ast.CaseClause)
+				if !ok {
+					return true
+				}
+				have := map[string]bool{}
+				for _, e := range cc.List {
+					if t := types.ExprString(e); six[t] {
+						have[t] = true
+					}
+				}
+				if len(have) < 3 {
+					return true
+				}
+				n++
+				if len(have) == 6 {
+					return true
+				}
+				var missing []string
+				for t := range six {
+					if !have[t] {
+						missing = append(missing, t)
+					}
+				}
+				sort.Strings(missing)
+				idx++
+				rep.Violate(Finding{Rule: "B-kindlist", Key: fmt.Sprintf("jp.%s:kinds-missing#%d:%s", funcKey(fd), idx, strings.Join(missing, ",")), Pos: prog.Pos(cc.Pos()), Msg: fmt.Sprintf("%s tests for a container with a case list that lacks %s: values of that representation are not descended into here", funcKey(fd), strings.Join(missing, ", "))})
+				return true
+			})
+		}
+	}
+	rep.Eval(n)
+	rep.Discharge("B-kindlist", "jp", "jp", fmt.Sprintf("%d container case lists examined", n))
+	if n < floor {
+		rep.Errorf("B-kindlist examined %d case lists (floor %d)", n, floor)
+	}
+}
